@@ -369,6 +369,31 @@ async fn main() {
                     if !bad.is_empty() { failures.push(json!({"witness": "C15:cancel-with-consts-in-flight", "failure": bad, "case": json!({"n": n, "leader": leader, "victim": victim, "held_then_failed": "consts 0->1", "reply": reply, "log": o.log})})); }
                     continue;
                 }
+                // corpus: a command that is invalid in state Executing (a repeated run request, a repeated validate, a consts request) reaches the party
+                // whose MPC is in flight (its outgoing MPC messages are held back, so the run cannot complete); then the party is cancelled.
+                // Cancel must still deliver `Cancelled` exactly once before it returns, stop the state machine and free the permit.
+                if (2..8).contains(&case) {
+                    let (n, leader) = (2usize, case % 2); let victim = (case / 2) % 2; let outs = vec![true; 2];
+                    let stray = match (case - 2) / 2 { 0 => Inject::StrayRun(victim), 1 => Inject::StrayValidate(victim), _ => Inject::StrayConsts(victim) };
+                    *SLOW.lock().unwrap() = Some((victim, 1 - victim)); let mut phase = 0; let stray2 = stray.clone();
+                    let o = scenario(n, leader, &outs, false, &vec![P2; n], &vec![leader; n], 1, &mut r, None, move |step, idle| {
+                        if phase == 0 && step >= 2 && idle >= 4 { phase = 1; Some(stray2.clone()) } else if phase == 1 && idle >= 2 { phase = 2; Some(Inject::Cancel(victim)) } else { None } }).await; execs += 1;
+                    *SLOW.lock().unwrap() = None; correspond(&mut m, &o, None, &mut disagreements, &mut steps);
+                    *dist.entry(format!("mode:{}-then-cancel-while-executing", format!("{stray:?}").split('(').next().unwrap())).or_default() += 1; distinct.insert(format!("stray-then-cancel {stray:?} {leader}"));
+                    let replies: Vec<String> = o.log.iter().filter(|l| l.starts_with("  -> ")).cloned().collect(); let reply = replies.get(1).cloned().unwrap_or_default(); let ok = reply.contains("Ok(Ok(()))");
+                    let got: Vec<String> = o.outputs.iter().filter(|(q, _)| *q == victim).map(|(_, s)| s.clone()).collect();
+                    let at_return: Vec<String> = reply.split("at-return=").nth(1).map(|x| x.split('|').filter(|y| !y.is_empty()).map(|y| y.to_string()).collect()).unwrap_or_default();
+                    let executing = o.obs.iter().any(|e| e.0 == victim && e.3 == "Executing");
+                    let mut bad = vec![];
+                    if !executing { bad.push("harness: the victim never reached Executing".to_string()); }
+                    if !ok { bad.push(format!("cancel() did not return Ok: {reply}")); }
+                    if ok && at_return != vec!["Cancelled".to_string()] { bad.push(format!("when cancel() returned Ok the destination held {at_return:?}, want exactly [Cancelled]")); }
+                    if got != vec!["Cancelled".to_string()] { bad.push(format!("destination of the cancelled party got {got:?} in the end (want exactly one `Cancelled`)")); }
+                    if !o.finished[victim] { bad.push("state machine of the cancelled party still running at the end".to_string()); }
+                    if o.permits[victim] != 1 { bad.push(format!("permit not returned: {}", o.permits[victim])); }
+                    if !bad.is_empty() { failures.push(json!({"witness": "C15:cancel-after-invalid-command-while-executing", "failure": bad, "case": json!({"n": n, "leader": leader, "victim": victim, "stray": format!("{stray:?}"), "replies": replies, "log": o.log})})); }
+                    continue;
+                }
                 let at = r.below(6) as usize; let after_idle = r.below(12); let victim = r.below(n as u64) as usize; let mut done = false;
                 let use_fast = r.bool(); let yields = r.below(40) as usize; let total_steps = 2 * (n - 1) + if consts { n - 1 } else { 0 }; let at_fast = 1 + r.below(total_steps as u64) as usize; let mut done2 = false;
                 let o = scenario2(n, leader, &outs, consts, &vec![prog; n], &vec![leader; n], 1, &mut r, None,
